@@ -548,7 +548,7 @@ impl World {
                         let mut buf = vec![0u8; 2048];
                         let Ok(out) = UdpSocket::bind("127.0.0.1:0").await else { return };
                         // one way only: towards the server
-                        while let Ok(Ok((l, _))) = tokio::time::timeout(Duration::from_secs(4), proxy.recv_from(&mut buf)).await {
+                        while let Ok(Ok((l, _))) = tokio::time::timeout(Duration::from_secs(14), proxy.recv_from(&mut buf)).await {
                             let _ = out.send_to(&buf[..l], ("127.0.0.1", sp)).await;
                         }
                     });
@@ -560,7 +560,8 @@ impl World {
                     ep.set_default_client_config(quinn::ClientConfig::new(Arc::new(qc)));
                     let Ok(connecting) = ep.connect(paddr, "localhost") else { return "n/a".to_owned() };
                     tokio::spawn(async move {
-                        let _ = tokio::time::timeout(Duration::from_secs(4), connecting).await;
+                        // longer than any flow is given: a listener that waits for this handshake serves nobody meanwhile
+                        let _ = tokio::time::timeout(Duration::from_secs(14), connecting).await;
                         drop(ep);
                     });
                     tokio::time::sleep(Duration::from_millis(150)).await;
